@@ -21,6 +21,7 @@ from .. import core
 from .. import families as F
 from ..core import Budget
 from ..drivers import Harness, canon_interp
+from ..recorder import HOOK_TAGS
 from ..e1 import bfs, build
 
 LEVEL = "fault_enumeration"
@@ -29,7 +30,7 @@ RULE = (
     "two markers each, and of the BUILTIN machine (assign / log / raise / emit with raising callables, lists nested through "
     "pure / choose / enqueueActions): the fault-free twin run yields the ordered call sites; each site (each pair in the "
     "thorough tier) is made to raise and the faulted run must equal the twin except for the remainder of the faulted action "
-    "list, with on_action_error notified once; (b) every plugin hook occurrence, the subscriber and the emit listener raising: "
+    "list, with on_action_error notified once; (b) every plugin hook occurrence (all twelve hooks incl. on_done / on_error / service and lifecycle hooks, in whole-run scenarios too), the subscriber and the emit listener raising: "
     "nothing may change; (c) ABORT family: an aborting error at the exit / transition / entry position (missing action, "
     "missing service, unresolvable target, async action on the sync engine) x source kinds (atomic with timer, compound with "
     "nested timers, region of a parallel state): configuration restored, error reported (raised / logged), timers of the exited "
@@ -37,7 +38,7 @@ RULE = (
     "fault site set) cases"
 )
 BOUNDS = {
-    "quick": "TREE(N<=3) steps x single faults; BUILTIN machine x single faults; hooks; ABORT family",
+    "quick": "TREE(N<=3) steps x single faults; BUILTIN machine x single faults; hooks (all 12 hook kinds, 5 lifecycle scenarios); ABORT family",
     "thorough": "TREE(N<=3) steps x single and paired faults; TREE(4) x single faults; BUILTIN x pairs; hooks; ABORT family",
 }
 ASSUMPTIONS = [
@@ -169,7 +170,7 @@ def explore_tree(tree, tier) -> Dict[str, Any]:
                     d2.close()
             # ---- (b) hooks and subscriber
             for kind in ("hook", "subscriber"):
-                n_calls = sum(1 for e in twin_seg if (kind == "hook" and e[0] in ("EV", "TR", "AX", "GE")) or (kind == "subscriber" and e[0] == "SUB"))
+                n_calls = sum(1 for e in twin_seg if (kind == "hook" and e[0] in HOOK_TAGS) or (kind == "subscriber" and e[0] == "SUB"))
                 for i in range(n_calls):
                     fault, st = injector(h2.rec, (kind,), [i])
                     d2, seg, err = step_once(h2, engine, hist, ev, fault)
@@ -292,7 +293,7 @@ def explore_builtin(tier) -> Dict[str, Any]:
             res["states"] += 1
             for kind in ("action", "callback", "listener", "hook"):
                 calls = [e for e in twin_seg if (kind == "action" and e[0] == "A") or (kind == "callback" and e[0] == "CB")
-                         or (kind == "listener" and e[0] == "LISTEN") or (kind == "hook" and e[0] in ("EV", "TR", "AX", "GE"))]
+                         or (kind == "listener" and e[0] == "LISTEN") or (kind == "hook" and e[0] in HOOK_TAGS)]
                 for i in range(len(calls)):
                     d2, seg, err, st = run((kind,), (i,))
                     try:
@@ -509,8 +510,84 @@ def explore_abort() -> Dict[str, Any]:
     return res
 
 
+# ------------------------------------------------------------------ lifecycle hooks
+LIFE_SCENARIOS = {"svc-ok": ["GO"], "svc-fails-unhandled": ["BAD"], "svc-fails-handled": ["BAD2"], "final": ["FIN"], "action-raises": ["ACT"]}
+
+
+def life_cfg() -> Dict[str, Any]:
+    return {"id": "m", "initial": "idle", "states": {
+        "idle": {"on": {"GO": "work", "BAD": "bad", "BAD2": "bad2", "FIN": "fin", "ACT": {"actions": ["mk:a1", "boom", "mk:a2"]}}},
+        "work": {"invoke": {"id": "ok", "src": "svc_ok", "onDone": {"target": "idle", "actions": ["mk:done"]}}},
+        "bad": {"invoke": {"id": "ko", "src": "svc_fail"}},
+        "bad2": {"invoke": {"id": "ko2", "src": "svc_fail", "onError": {"target": "idle", "actions": ["mk:handled"]}}},
+        "fin": {"type": "final"}}}
+
+
+def explore_lifecycle_hooks() -> Dict[str, Any]:
+    """Whole runs (start, one event, settle, stop) in which every occurrence of every plugin hook - on_interpreter_start/stop,
+    on_service_start/done/error, on_action_error, on_done, on_error included - raises, compared with the fault-free twin."""
+    res = dict(states=0, transitions=0, executions=0, evaluations=0, distinct_count=0, violations=[], samples=[], caps=[])
+
+    def run(engine, evs, fault):
+        is_async = engine == "async"
+        if is_async:
+            async def svc_ok(i, c, e):
+                return 1
+
+            async def svc_fail(i, c, e):
+                raise ValueError("service fails")
+        else:
+            def svc_ok(i, c, e):
+                return 1
+
+            def svc_fail(i, c, e):
+                raise ValueError("service fails")
+
+        def boom(i, c, e, a):
+            raise ValueError("action fails")
+
+        h = Harness(life_cfg(), services={"svc_ok": svc_ok, "svc_fail": svc_fail}, extra_actions={"boom": boom}, with_plugin=True, threads=True)
+        d = h.driver(engine)
+        try:
+            d.rec.fault = fault
+            errs = [d.start()]
+            for ev in evs:
+                errs.append(d.send(ev))
+                d.settle()
+            before_stop = d.observe()
+            errs.append(d.stop())
+            d.rec.fault = None
+            log = list(d.rec.log)
+            return dict(markers=[e[1] for e in log if e[0] == "A"], hooks=[e[0] for e in log if e[0] in HOOK_TAGS],
+                        state=before_stop[:3], after=d.observe()[:3], errs=[repr(e) if e is not None else None for e in errs])
+        finally:
+            d.close()
+
+    for engine in ENGINES:
+        for scen, evs in LIFE_SCENARIOS.items():
+            twin = run(engine, evs, None)
+            n_hooks = len(twin["hooks"])
+            for i in range(n_hooks):
+                fault, st = injector(None, ("hook",), [i])
+                out = run(engine, evs, fault)
+                res["executions"] += 1
+                res["evaluations"] += 1
+                res["distinct_count"] += 1
+                for key, clause in (("markers", "observer-fault-changed-actions"), ("state", "observer-fault-changed-outcome"),
+                                    ("after", "observer-fault-changed-outcome"), ("errs", "observer-fault-escaped")):
+                    if out[key] != twin[key]:
+                        res["violations"].append(dict(
+                            signature=f"C07|{clause}|{engine}|hook:{twin['hooks'][i]}", clause=clause,
+                            what=f"{engine}: {clause}: hook occurrence {i} ({twin['hooks'][i]}) raising in scenario {scen}: {key} {out[key]} vs fault-free {twin[key]}",
+                            size=i, replay=dict(kind="life", engine=engine, scenario=scen, site=i)))
+                        break
+            res["samples"].append(dict(kind="lifecycle hooks", engine=engine, scenario=scen, hook_occurrences=n_hooks, hooks=twin["hooks"]))
+    return res
+
+
 def units(tier: str) -> List[Any]:
     us: List[Any] = [("tree", t, tier) for t in F.trees_upto(3)]
+    us.append(("life", None, tier))
     if tier == "thorough":
         us += [("tree", t, "quick") for t in F.trees_exact(4)]
     us.append(("builtin", None, tier))
@@ -524,6 +601,8 @@ def run_unit(unit):
         return explore_tree(payload, tier)
     if kind == "builtin":
         return explore_builtin(tier)
+    if kind == "life":
+        return explore_lifecycle_hooks()
     return explore_abort()
 
 
@@ -534,6 +613,9 @@ def replay(payload):
         res = explore_tree(_tuplify(payload["tree"]), "thorough")
         out = [v for v in res["violations"] if v["replay"]["hist"] == payload["hist"] and v["replay"]["ev"] == payload["ev"]
                and v["replay"]["sites"] == payload["sites"] and v["replay"]["engine"] == payload["engine"]]
+    elif payload["kind"] == "life":
+        res = explore_lifecycle_hooks()
+        out = [v for v in res["violations"] if v["replay"] == payload]
     elif payload["kind"] == "builtin":
         res = explore_builtin("quick")
         out = [v for v in res["violations"] if v["replay"] == payload]
